@@ -180,7 +180,9 @@ Definition read_seq (qs : str) (body : list N) (order : list accessor) : list (q
 Inductive op :=
 | ORead (a : accessor)
 | OSetQs (qs : str)
-| OSetBody (b : list N).
+| OSetBody (b : list N)
+| OReadBody (n : Z).     (* request.body.read(n): the body property rewinds, _get_body_string rewinds
+                            again (body_mixin.py: self._body.seek(0)) — no effect on later reads *)
 
 Definition rstate := (str * list N)%type.
 
@@ -189,6 +191,7 @@ Definition apply_op (st : rstate) (o : op) : rstate :=
   | ORead _ => st
   | OSetQs q => (q, snd st)
   | OSetBody b => (fst st, b)
+  | OReadBody _ => st
   end.
 
 (* the results of the reads, in order *)
@@ -223,7 +226,7 @@ Definition with_str (r : list Z) (f : str -> list Z -> list Z) : list Z :=
 (* first integer = kind:
      0 query(qs)          1 forms(body)        2 params(qs, body)     3 parse_qsl(qs) pairs
     4 read_seq(qs, body, order)   (order: 0 query, 1 forms, 2 params)
-    6 run_ops((qs, body), ops)    (op: 0 a = read | 1 str = set QUERY_STRING | 2 bytes = set body)
+    6 run_ops((qs, body), ops)    (op: 0 a = read | 1 str = set QUERY_STRING | 2 bytes = set body | 3 n = body.read(n))
     10 utf8_encode s     11 utf8_dec bs       12 utf8_dec_replace bs
     20 quote s           21 quote_plus s      22 unquote s            23 unquote_to_bytes s (ASCII)
     24 urlencode pairs   25 urlencode_q pairs 26 quote(s, safe='/')                           *)
@@ -250,6 +253,7 @@ Definition corr_C18_base (inp : list Z) : list Z :=
                                                           | Some (s, l'') => Some (OSetQs s, l'') | None => None end
                                            | 2%Z :: l' => match dec_str l' with
                                                           | Some (s, l'') => Some (OSetBody s, l'') | None => None end
+                                           | 3%Z :: n :: l' => Some (OReadBody n, l')
                                            | _ => None
                                            end) r'' with
                   | Some (ops, _) => enc_list (enc_qres enc_fdict) (run_ops (qs, b) ops)
